@@ -9,6 +9,7 @@
 import Saltpack.Model.Armor
 import Saltpack.Proofs.Basex
 import Saltpack.Proofs.Digits
+import Saltpack.Proofs.ArmorLemmas
 
 namespace Saltpack.Proofs
 open Saltpack Saltpack.Armor
@@ -27,6 +28,203 @@ structure FrameVariant (f f' : Bytes) : Prop where
   len : (trimSpace f').length ≤ 512
   lim : f'.length < 8192
 
+/-! ### frame words -/
+
+/-- a frame word: non-empty, alphabet characters only -/
+def WordOK (w : Bytes) : Prop := w ≠ [] ∧ ∀ c ∈ w, (params62.enc.digit? c).isSome = true
+
+instance (w : Bytes) : Decidable (WordOK w) := by unfold WordOK; infer_instance
+
+/-- the type string of `typ` is the two words `s1 s2` -/
+structure TypeWords (typ : Int) (sffx s1 s2 : Bytes) : Prop where
+  ts : typeString typ = some sffx
+  split : sffx = s1 ++ [space] ++ s2
+  w1 : WordOK s1
+  w2 : WordOK s2
+  len : s1.length + s2.length ≤ 17
+
+theorem typeWords (typ : Int) (ht : Armorable typ) : ∃ sffx s1 s2, TypeWords typ sffx s1 s2 := by
+  rcases ht with rfl | rfl | rfl
+  · exact ⟨Gen.c_sp_EncryptionArmorString, [69, 78, 67, 82, 89, 80, 84, 69, 68], [77, 69, 83, 83, 65, 71, 69],
+      by decide, by decide, by decide, by decide, by decide⟩
+  · exact ⟨Gen.c_sp_SignedArmorString, [83, 73, 71, 78, 69, 68], [77, 69, 83, 83, 65, 71, 69],
+      by decide, by decide, by decide, by decide, by decide⟩
+  · exact ⟨Gen.c_sp_DetachedSignatureArmorString, [68, 69, 84, 65, 67, 72, 69, 68], [83, 73, 71, 78, 65, 84, 85, 82, 69],
+      by decide, by decide, by decide, by decide, by decide⟩
+
+theorem typeString_inj (typ typ' : Int) (ht : Armorable typ) (ht' : Armorable typ')
+    (h : typeString typ = typeString typ') : typ = typ' := by
+  rcases ht with rfl | rfl | rfl <;> rcases ht' with rfl | rfl | rfl <;>
+    first | rfl | (exfalso; revert h; decide)
+
+theorem upperName_ok : WordOK (upper Gen.c_sp_FormatName) := by decide
+theorem upperName_len : (upper Gen.c_sp_FormatName).length = 8 := by decide
+theorem headerMarker_ok : WordOK Gen.c_sp_headerMarker := by decide
+theorem footerMarker_ok : WordOK Gen.c_sp_footerMarker := by decide
+
+theorem brand_word (brand : Bytes) (hb : BrandOK brand) (hne : brand ≠ []) : WordOK brand :=
+  ⟨hne, fun c hc => (alnum_facts c (hb.2 c hc)).1⟩
+
+/-- the words of a frame -/
+def frameWords (marker brand s1 s2 : Bytes) : List Bytes :=
+  [marker] ++ (if brand.isEmpty then [] else [brand]) ++ [upper Gen.c_sp_FormatName, s1, s2]
+
+theorem makeFrame_words (marker : Bytes) (typ : Int) (brand sffx s1 s2 : Bytes)
+    (tw : TypeWords typ sffx s1 s2) :
+    makeFrame marker typ brand = intercalateSp (frameWords marker brand s1 s2) := by
+  unfold makeFrame frameWords
+  rw [tw.ts]
+  by_cases hb : brand.isEmpty = true <;> simp [hb, intercalateSp, tw.split]
+
+theorem frameWords_ok (marker brand s1 s2 : Bytes) (hm : WordOK marker) (hb : BrandOK brand)
+    (h1 : WordOK s1) (h2 : WordOK s2) : ∀ w ∈ frameWords marker brand s1 s2, WordOK w := by
+  intro w hw
+  unfold frameWords at hw
+  by_cases hbe : brand.isEmpty = true
+  · simp only [hbe, if_true, List.append_nil, List.cons_append, List.nil_append,
+      List.mem_cons, List.not_mem_nil, or_false] at hw
+    rcases hw with rfl | rfl | rfl | rfl
+    · exact hm
+    · exact upperName_ok
+    · exact h1
+    · exact h2
+  · simp only [hbe, Bool.false_eq_true, if_false, List.cons_append, List.nil_append,
+      List.mem_cons, List.not_mem_nil, or_false] at hw
+    have hne : brand ≠ [] := by
+      intro h; apply hbe; rw [h]; rfl
+    rcases hw with rfl | rfl | rfl | rfl | rfl
+    · exact hm
+    · exact brand_word _ hb hne
+    · exact upperName_ok
+    · exact h1
+    · exact h2
+
+theorem frameWords_ne (marker brand s1 s2 : Bytes) : frameWords marker brand s1 s2 ≠ [] := by
+  unfold frameWords; simp
+
+/-- what we need of a canonical frame -/
+theorem frame_canon (marker : Bytes) (hm : WordOK marker) (hml : marker.length ≤ 5) (typ : Int)
+    (ht : Armorable typ) (brand : Bytes) (hb : BrandOK brand) :
+    (∀ c ∈ makeFrame marker typ brand, validByte params62 c = true) ∧
+    (∀ r, collapseAux r (makeFrame marker typ brand) = makeFrame marker typ brand) ∧
+    trimSpace (makeFrame marker typ brand) = makeFrame marker typ brand ∧
+    (makeFrame marker typ brand).length ≤ 200 := by
+  obtain ⟨sffx, s1, s2, tw⟩ := typeWords typ ht
+  have hws := frameWords_ok marker brand s1 s2 hm hb tw.w1 tw.w2
+  rw [makeFrame_words marker typ brand sffx s1 s2 tw]
+  refine ⟨?_, ?_, ?_, ?_⟩
+  · intro c hc
+    rcases mem_intercalateSp _ c hc with rfl | ⟨w, hw, hcw⟩
+    · exact space_valid
+    · exact (digit_facts c ((hws w hw).2 c hcw)).1
+  · intro r
+    exact collapseAux_intercalate _ (frameWords_ne _ _ _ _)
+      (fun w hw => ⟨(hws w hw).1, fun c hc => (digit_facts c ((hws w hw).2 c hc)).2.1⟩) r
+  · exact trimSpace_intercalate _
+      (fun w hw => ⟨(hws w hw).1, fun c hc => (digit_facts c ((hws w hw).2 c hc)).2.2.1⟩)
+  · have h8 := upperName_len
+    have hl := tw.len
+    have hbl := hb.1
+    unfold frameWords
+    by_cases hbe : brand.isEmpty = true
+    · simp only [hbe, if_true, List.append_nil, List.cons_append, List.nil_append, intercalateSp,
+        List.length_append, List.length_cons, List.length_nil]
+      omega
+    · simp only [hbe, Bool.false_eq_true, if_false, List.cons_append, List.nil_append, intercalateSp,
+        List.length_append, List.length_cons, List.length_nil]
+      omega
+
+theorem maxFrame_eq : Gen.c_sp_maxFrameLength.toNat = 512 := by decide
+theorem maxBrand_eq : Gen.c_sp_maxBrandLength.toNat = 128 := by decide
+
+theorem splitSp_frame (marker brand s1 s2 : Bytes) (hm : WordOK marker) (hb : BrandOK brand)
+    (h1 : WordOK s1) (h2 : WordOK s2) :
+    splitSp (intercalateSp (frameWords marker brand s1 s2)) = frameWords marker brand s1 s2 := by
+  have hws := frameWords_ok marker brand s1 s2 hm hb h1 h2
+  have hsp : ∀ v ∈ frameWords marker brand s1 s2, ∀ c ∈ v, (c == space) = false :=
+    fun v hv c hc => (digit_facts c ((hws v hv).2 c hc)).2.2.2.1
+  revert hsp
+  unfold frameWords
+  intro hsp
+  exact splitSp_intercalate _ _ hsp
+
+/-- **`parseFrame` on anything that normalises to the canonical frame** -/
+theorem parseFrame_canon (marker : Bytes) (hm : WordOK marker) (typ : Int) (ht : Armorable typ)
+    (brand : Bytes) (hb : BrandOK brand) (m : Bytes) (hlen : m.length ≤ 512)
+    (hnorm : trimSpace (collapse m) = makeFrame marker typ brand) :
+    parseFrame m typ marker = .ok brand := by
+  obtain ⟨sffx, s1, s2, tw⟩ := typeWords typ ht
+  unfold parseFrame
+  rw [maxFrame_eq, maxBrand_eq, if_neg (by omega)]
+  simp only [hnorm, tw.ts]
+  rw [makeFrame_words marker typ brand sffx s1 s2 tw, splitSp_frame marker brand s1 s2 hm hb tw.w1 tw.w2]
+  unfold frameWords
+  by_cases hbe : brand.isEmpty = true
+  · have : brand = [] := List.isEmpty_iff.mp hbe
+    subst this
+    simp [tw.split]
+  · have hbl := hb.1
+    simp [hbe, tw.split]
+    omega
+
+/-- a frame of another type is rejected -/
+theorem parseFrame_canon_wrong (marker : Bytes) (hm : WordOK marker) (typ typ' : Int)
+    (ht : Armorable typ) (ht' : Armorable typ') (hne : typ ≠ typ')
+    (brand : Bytes) (hb : BrandOK brand) (m : Bytes)
+    (hnorm : trimSpace (collapse m) = makeFrame marker typ brand) :
+    parseFrame m typ' marker = .error .badFrame := by
+  obtain ⟨sffx, s1, s2, tw⟩ := typeWords typ ht
+  obtain ⟨sffx', s1', s2', tw'⟩ := typeWords typ' ht'
+  have hsne : sffx ≠ sffx' := by
+    intro h
+    apply hne
+    apply typeString_inj typ typ' ht ht'
+    rw [tw.ts, tw'.ts, h]
+  unfold parseFrame
+  split
+  · rfl
+  · simp only [hnorm, tw'.ts]
+    rw [makeFrame_words marker typ brand sffx s1 s2 tw, splitSp_frame marker brand s1 s2 hm hb tw.w1 tw.w2]
+    unfold frameWords
+    have hsne' : s1 ++ 32 :: s2 ≠ sffx' := by
+      intro h; apply hsne; rw [tw.split, ← h]; simp [space]
+    by_cases hbe : brand.isEmpty = true
+    · simp [hbe, hsne', space]
+    · simp [hbe, hsne', space]
+
+/-- the framed decoder on a three-period text with valid pieces, in terms of
+    the frame checks -/
+theorem open62_text (hdr' body' ftr' trail : Bytes) :
+    hdr' ++ [period] ++ body' ++ [period] ++ ftr' ++ [period] ++ trail =
+      hdr' ++ period :: (body' ++ period :: (ftr' ++ period :: trail)) := by
+  simp
+
+theorem decode_body (payload body' : Bytes)
+    (hfil : Basex.filterSkip params62.enc body' = Basex.encode params62.enc payload) :
+    Basex.decode params62.enc.strict (Basex.filterSkip params62.enc body') = .ok payload := by
+  rw [hfil, ← encode_strict]
+  exact decode_encode _ (strict_wf wf62) payload
+
+theorem open62_some (typ : Int) (brand brand' payload hdr' body' ftr' trail : Bytes)
+    (hh : (∀ c ∈ hdr', validByte params62 c = true) ∧ hdr'.length < 8192)
+    (hf : (∀ c ∈ ftr', validByte params62 c = true) ∧ ftr'.length < 8192)
+    (hbody : ∀ c ∈ body', validByte params62 c = true)
+    (hfil : Basex.filterSkip params62.enc body' = Basex.encode params62.enc payload)
+    (htrail : ∀ c ∈ trail, validByte params62 c = true)
+    (hp : parseFrame (trimSpace hdr') typ Gen.c_sp_headerMarker = .ok brand)
+    (hc : checkArmor62 (trimSpace hdr') (trimSpace ftr') typ = .ok brand') :
+    open62 (some typ) (hdr' ++ [period] ++ body' ++ [period] ++ ftr' ++ [period] ++ trail) =
+      .ok ⟨payload, brand, trimSpace hdr', trimSpace ftr'⟩ := by
+  rw [open62_text]
+  unfold open62 openPure
+  have h1 : ¬ (hdr'.length ≥ frameLim) := by unfold frameLim; omega
+  have h2 : ¬ (ftr'.length ≥ frameLim) := by unfold frameLim; omega
+  simp only [splitAt1_append _ _ _ (valid_ne_period _ hh.1), splitAt1_append _ _ _ (valid_ne_period _ hbody),
+    splitAt1_append _ _ _ (valid_ne_period _ hf.1), toASCII_valid _ hh.1, toASCII_valid _ hf.1,
+    all_valid _ hbody, all_valid _ htrail, no_period _ htrail, decode_body payload body' hfil,
+    if_neg h1, if_neg h2, hp, hc]
+  simp
+
 /-- **Tolerant dearmoring.** Any text of the form
     `hdr' . body' . ftr' . trail` where `hdr'`/`ftr'` are variants of the frames
     of (`typ`, `brand`), `body'` consists of valid bytes whose non-skip characters
@@ -40,7 +238,17 @@ theorem open_variant (typ : Int) (ht : Armorable typ) (brand : Bytes) (hb : Bran
     (htrail : ∀ c ∈ trail, validByte params62 c = true) :
     open62 (some typ) (hdr' ++ [period] ++ body' ++ [period] ++ ftr' ++ [period] ++ trail) =
       .ok ⟨payload, brand, trimSpace hdr', trimSpace ftr'⟩ := by
-  sorry
+  have hnh := trim_collapse_trim hdr' (fun c hc => valid_trim_frame c (hh.valid c hc))
+  have hnf := trim_collapse_trim ftr' (fun c hc => valid_trim_frame c (hf.valid c hc))
+  have hp : parseFrame (trimSpace hdr') typ Gen.c_sp_headerMarker = .ok brand :=
+    parseFrame_canon _ headerMarker_ok typ ht brand hb _ hh.len (by rw [hnh, hh.norm]; rfl)
+  have hq : parseFrame (trimSpace ftr') typ Gen.c_sp_footerMarker = .ok brand :=
+    parseFrame_canon _ footerMarker_ok typ ht brand hb _ hf.len (by rw [hnf, hf.norm]; rfl)
+  have hc : checkArmor62 (trimSpace hdr') (trimSpace ftr') typ = .ok brand := by
+    unfold checkArmor62
+    simp [hp, hq]
+  exact open62_some typ brand brand payload hdr' body' ftr' trail ⟨hh.valid, hh.lim⟩ ⟨hf.valid, hf.lim⟩
+    hbody hfil htrail hp hc
 
 /-- the same without frame validation (`Armor62Open`): payload and frames as received -/
 theorem open_variant_novalidation (payload hdr' body' ftr' trail : Bytes)
@@ -51,7 +259,48 @@ theorem open_variant_novalidation (payload hdr' body' ftr' trail : Bytes)
     (htrail : ∀ c ∈ trail, validByte params62 c = true) :
     open62 none (hdr' ++ [period] ++ body' ++ [period] ++ ftr' ++ [period] ++ trail) =
       .ok ⟨payload, [], trimSpace hdr', trimSpace ftr'⟩ := by
-  sorry
+  rw [open62_text]
+  unfold open62 openPure
+  have h1 : ¬ (hdr'.length ≥ frameLim) := by unfold frameLim; omega
+  have h2 : ¬ (ftr'.length ≥ frameLim) := by unfold frameLim; omega
+  simp only [splitAt1_append _ _ _ (valid_ne_period _ hh.1), splitAt1_append _ _ _ (valid_ne_period _ hbody),
+    splitAt1_append _ _ _ (valid_ne_period _ hf.1), toASCII_valid _ hh.1, toASCII_valid _ hf.1,
+    all_valid _ hbody, all_valid _ htrail, no_period _ htrail, decode_body payload body' hfil,
+    if_neg h1, if_neg h2]
+  simp
+
+theorem header_variant (marker : Bytes) (hm : WordOK marker) (hml : marker.length ≤ 5) (typ : Int)
+    (ht : Armorable typ) (brand : Bytes) (hb : BrandOK brand) :
+    FrameVariant (makeFrame marker typ brand) (makeFrame marker typ brand) ∧
+    FrameVariant (makeFrame marker typ brand) ([space] ++ makeFrame marker typ brand) ∧
+    trimSpace ([space] ++ makeFrame marker typ brand) = makeFrame marker typ brand := by
+  obtain ⟨hv, hc, htr, hl⟩ := frame_canon marker hm hml typ ht brand hb
+  have hsp : ∀ c ∈ [space], isTrimSpace c = true := by simp; decide
+  have htr' : trimSpace ([space] ++ makeFrame marker typ brand) = makeFrame marker typ brand := by
+    rw [trimSpace_pre _ _ hsp, htr]
+  refine ⟨⟨hv, ?_, ?_, ?_⟩, ⟨?_, ?_, ?_, ?_⟩, htr'⟩
+  · unfold collapse; rw [hc, htr]
+  · rw [htr]; omega
+  · omega
+  · intro c h
+    simp only [List.singleton_append, List.mem_cons] at h
+    rcases h with rfl | h
+    · exact space_valid
+    · exact hv c h
+  · have hfs : isFrameSpace space = true := by decide
+    unfold collapse
+    simp only [List.singleton_append, collapseAux, hfs, if_true, Bool.false_eq_true, if_false, hc]
+    exact htr'
+  · rw [htr']; omega
+  · simp only [List.singleton_append, List.length_cons]; omega
+
+theorem words_chars (payload : Bytes) :
+    ∀ w ∈ chunks params62.bytesPerWord (Basex.encode params62.enc payload),
+      ∀ c ∈ w, (params62.enc.digit? c).isSome = true := by
+  intro w hw c hc
+  apply encode_chars params62.enc wf62 payload c
+  rw [← chunks_flatten params62.bytesPerWord (Basex.encode params62.enc payload)]
+  exact List.mem_flatten.mpr ⟨w, hw, hc⟩
 
 /-- **The sealed text is such a variant** (so `open62 (seal62 …)` round-trips):
     it is `header . body . " " footer . "\n"` with `body` = a space, the encoded
@@ -63,13 +312,43 @@ theorem seal_is_variant (typ : Int) (ht : Armorable typ) (brand : Bytes) (hb : B
       FrameVariant (footer typ brand) ([space] ++ footer typ brand) ∧
       (∀ c ∈ body', validByte params62 c = true) ∧
       Basex.filterSkip params62.enc body' = Basex.encode params62.enc payload := by
-  sorry
+  obtain ⟨hv1, _, _⟩ := header_variant _ headerMarker_ok (by decide) typ ht brand hb
+  obtain ⟨_, hv2, _⟩ := header_variant _ footerMarker_ok (by decide) typ ht brand hb
+  have hwc := words_chars payload
+  have hpad : ∀ (b1 b2 : Prop) [Decidable b1] [Decidable b2], ∀ c ∈ (if b1 then (if b2 then [newline] else [space]) else [] : Bytes),
+      isFrameSpace c = true := by
+    intro b1 b2 _ _ c hc
+    split at hc
+    · split at hc <;> (rw [List.mem_singleton] at hc; subst hc; decide)
+    · simp at hc
+  refine ⟨[space] ++ spaceWords params62 0 (chunks params62.bytesPerWord (Basex.encode params62.enc payload)) ++
+      (if ((chunks params62.bytesPerWord (Basex.encode params62.enc payload)).getLast?.getD []).length = params62.bytesPerWord then
+        (if (if (chunks params62.bytesPerWord (Basex.encode params62.enc payload)).isEmpty then 1
+              else (chunks params62.bytesPerWord (Basex.encode params62.enc payload)).length) % params62.wordsPerLine = 0
+          then [newline] else [space]) else []), ?_, hv1, hv2, ?_, ?_⟩
+  · unfold seal62 sealText header footer
+    simp only [List.append_assoc, List.cons_append, List.nil_append]
+  · intro c hc
+    simp only [List.mem_append] at hc
+    rcases hc with (hc | hc) | hc
+    · rw [List.mem_singleton] at hc; subst hc; exact space_valid
+    · exact valid_spaceWords _ hwc 0 c hc
+    · exact frameSpace_valid c (hpad _ _ c hc)
+  · rw [filterSkip_append, filterSkip_append, filterSkip_spaceWords _ hwc 0,
+      filterSkip_run [space] (by simp; decide), filterSkip_run _ (hpad _ _), chunks_flatten]
+    simp
 
 /-- **Round trip** of the sealed text itself -/
 theorem open_seal (typ : Int) (ht : Armorable typ) (brand : Bytes) (hb : BrandOK brand) (payload : Bytes) :
     open62 (some typ) (seal62 typ brand payload) =
       .ok ⟨payload, brand, header typ brand, footer typ brand⟩ := by
-  sorry
+  obtain ⟨_, _, htf⟩ := header_variant _ footerMarker_ok (by decide) typ ht brand hb
+  obtain ⟨_, _, hth, _⟩ := frame_canon _ headerMarker_ok (by decide) typ ht brand hb
+  obtain ⟨body', heq, hv1, hv2, hvalid, hfil⟩ := seal_is_variant typ ht brand hb payload
+  rw [heq, open_variant typ ht brand hb payload _ body' _ [newline] hv1 hv2 hvalid hfil
+    (by intro c hc; rw [List.mem_singleton] at hc; subst hc; exact newline_valid)]
+  unfold header footer at *
+  rw [hth, htf]
 
 /-- inserting a run of skip characters anywhere in the body keeps it a body of
     the same payload -/
@@ -77,7 +356,15 @@ theorem body_insert (a b run : Bytes)
     (hr : ∀ c ∈ run, isFrameSpace c = true) :
     Basex.filterSkip params62.enc (a ++ run ++ b) = Basex.filterSkip params62.enc (a ++ b) ∧
     ((∀ c ∈ a ++ b, validByte params62 c = true) → ∀ c ∈ a ++ run ++ b, validByte params62 c = true) := by
-  sorry
+  constructor
+  · rw [filterSkip_append, filterSkip_append, filterSkip_append, filterSkip_run run hr]
+    simp
+  · intro h c hc
+    simp only [List.mem_append] at hc h
+    rcases hc with (hc | hc) | hc
+    · exact h c (Or.inl hc)
+    · exact frameSpace_valid c (hr c hc)
+    · exact h c (Or.inr hc)
 
 /-- replacing a separating space of a frame by a non-empty run, or adding runs
     around it, keeps it a variant (as long as the trimmed frame stays ≤ 512 and
@@ -86,14 +373,35 @@ theorem frame_reflow (f a b run : Bytes) (hv : FrameVariant f (a ++ [space] ++ b
     (hr : ∀ c ∈ run, isFrameSpace c = true) (hne : run ≠ [])
     (hlen : (trimSpace (a ++ run ++ b)).length ≤ 512) (hlim : (a ++ run ++ b).length < 8192) :
     FrameVariant f (a ++ run ++ b) := by
-  sorry
+  refine ⟨?_, ?_, hlen, hlim⟩
+  · intro c hc
+    simp only [List.mem_append] at hc
+    rcases hc with (hc | hc) | hc
+    · exact hv.valid c (by simp [hc])
+    · exact frameSpace_valid c (hr c hc)
+    · exact hv.valid c (by simp [hc])
+  · rw [← hv.norm]
+    unfold collapse
+    have hsp : ∀ c ∈ [space], isFrameSpace c = true := by simp; decide
+    rw [List.append_assoc, List.append_assoc, collapseAux_append, collapseAux_append a,
+      collapseAux_run run b hr hne, collapseAux_run [space] b hsp (by simp)]
 
 theorem frame_surround (f f' pre post : Bytes) (hv : FrameVariant f f')
     (hpre : ∀ c ∈ pre, isTrimSpace c = true ∧ isFrameSpace c = true)
     (hpost : ∀ c ∈ post, isTrimSpace c = true ∧ isFrameSpace c = true)
     (hlim : (pre ++ f' ++ post).length < 8192) :
     FrameVariant f (pre ++ f' ++ post) := by
-  sorry
+  refine ⟨?_, ?_, ?_, hlim⟩
+  · intro c hc
+    simp only [List.mem_append] at hc
+    rcases hc with (hc | hc) | hc
+    · exact frameSpace_valid c (hpre c hc).2
+    · exact hv.valid c hc
+    · exact frameSpace_valid c (hpost c hc).2
+  · rw [trim_collapse_surround pre f' post (fun c hc => (hpre c hc).2) (fun c hc => (hpost c hc).2)]
+    exact hv.norm
+  · rw [trimSpace_surround pre f' post (fun c hc => (hpre c hc).1) (fun c hc => (hpost c hc).1)]
+    exact hv.len
 
 /-! ### shape -/
 
@@ -105,14 +413,21 @@ theorem header_shape (typ : Int) (sffx : Bytes) (ht : typeString typ = some sffx
     footer typ brand =
       (if brand.isEmpty then Gen.c_sp_footerMarker ++ [space] ++ upper Gen.c_sp_FormatName ++ [space] ++ sffx
        else Gen.c_sp_footerMarker ++ [space] ++ brand ++ [space] ++ upper Gen.c_sp_FormatName ++ [space] ++ sffx) := by
-  sorry
+  unfold header footer makeFrame
+  rw [ht]
+  by_cases hb : brand.isEmpty = true <;> simp [hb, intercalateSp]
 
 /-- every word of the body is at most 15 base62 characters, and exactly every
     200th word separator is a newline -/
 theorem words_shape (payload : Bytes) :
     ∀ w ∈ chunks params62.bytesPerWord (Basex.encode params62.enc payload),
       w.length ≤ 15 ∧ w ≠ [] ∧ ∀ c ∈ w, (params62.enc.digit? c).isSome := by
-  sorry
+  intro w hw
+  have h := chunks_mem_length params62.bytesPerWord (by decide) _ _ (Nat.le_refl _) w hw
+  refine ⟨h.2, ?_, ?_⟩
+  · intro he; rw [he] at h; simp at h
+  · intro c hc
+    rw [words_chars payload w hw c hc]
 
 /-! ### rejection -/
 
@@ -120,22 +435,63 @@ theorem words_shape (payload : Bytes) :
 theorem parse_wrong_type (typ typ' : Int) (ht : Armorable typ) (ht' : Armorable typ') (hne : typ ≠ typ')
     (brand f' : Bytes) (hb : BrandOK brand) (hv : FrameVariant (header typ brand) f') :
     ∃ e, parseFrame (trimSpace f') typ' Gen.c_sp_headerMarker = .error e := by
-  sorry
+  refine ⟨.badFrame, ?_⟩
+  apply parseFrame_canon_wrong _ headerMarker_ok typ typ' ht ht' hne brand hb
+  rw [trim_collapse_trim f' (fun c hc => valid_trim_frame c (hv.valid c hc)), hv.norm]
+  rfl
 
 /-- `CheckArmor62` succeeds only if both frames parse for the type and carry
     the same brand -/
 theorem check_sound (hdr ftr : Bytes) (typ : Int) (brand : Bytes) (h : checkArmor62 hdr ftr typ = .ok brand) :
     parseFrame hdr typ Gen.c_sp_headerMarker = .ok brand ∧ parseFrame ftr typ Gen.c_sp_footerMarker = .ok brand := by
-  sorry
+  unfold checkArmor62 at h
+  split at h
+  · exact absurd h (by simp)
+  · rename_i b1 h1
+    split at h
+    · exact absurd h (by simp)
+    · rename_i b2 h2
+      split at h
+      · exact absurd h (by simp)
+      · rename_i hne
+        injection h with h
+        subst h
+        have : b2 = b1 := by simpa using hne
+        subst this
+        exact ⟨h1, h2⟩
 
 /-- over-long frames are rejected (512 after trimming; 8192 raw) -/
 theorem parse_too_long (m : Bytes) (typ : Int) (marker : Bytes) (h : 512 < m.length) :
     parseFrame m typ marker = .error .badFrame := by
-  sorry
+  unfold parseFrame
+  rw [maxFrame_eq, if_pos (by omega)]
 
 /-- a parsed brand is never longer than 128 -/
 theorem parse_brand_len (m : Bytes) (typ : Int) (marker brand : Bytes) (h : parseFrame m typ marker = .ok brand) :
     brand.length ≤ 128 := by
-  sorry
+  unfold parseFrame at h
+  rw [maxBrand_eq] at h
+  split at h
+  · exact absurd h (by simp)
+  · simp only at h
+    split at h
+    · exact absurd h (by simp)
+    · split at h
+      · exact absurd h (by simp)
+      · split at h
+        · exact absurd h (by simp)
+        · split at h
+          · exact absurd h (by simp)
+          · split at h
+            · exact absurd h (by simp)
+            · split at h
+              · split at h
+                · exact absurd h (by simp)
+                · injection h with h
+                  subst h
+                  omega
+              · injection h with h
+                subst h
+                simp
 
 end Saltpack.Proofs
